@@ -5,6 +5,7 @@ use crate::utils::debug::ToJsonCompact;
 use apint::{Int, Width};
 use serde::{Deserialize, Serialize};
 use std::collections::BTreeMap;
+use std::ops::Bound;
 use std::sync::Arc;
 
 /// A memory region is an abstract domain representing a continuous region of memory, e.g. the stack frame of a function.
@@ -106,14 +107,15 @@ impl<T: AbstractDomain + SizedDomain + HasTop + std::fmt::Debug> MemRegion<T> {
             .map(|(pos, elem)| (*pos, u64::from(elem.bytesize()) as i64))
             .last()
         {
-            if prev_pos + prev_size > position {
+            if prev_pos.saturating_add(prev_size) > position {
                 inner.values.remove(&prev_pos);
             }
         }
         // remove all other intersecting elements
+        // (the position may be close to `i64::MAX`, so the end of the range must not overflow)
         let intersecting_elements: Vec<i64> = inner
             .values
-            .range(position..(position + size))
+            .range(position..position.saturating_add(size))
             .map(|(pos, _elem)| *pos)
             .collect();
         for index in intersecting_elements {
@@ -230,7 +232,7 @@ impl<T: AbstractDomain + SizedDomain + HasTop + std::fmt::Debug> MemRegion<T> {
             .map(|(pos, elem)| (*pos, u64::from(elem.bytesize()) as i64))
             .last()
         {
-            if prev_pos + prev_size > start {
+            if prev_pos.saturating_add(prev_size) > start {
                 let value = inner.values.get(&prev_pos).unwrap();
                 let merged_value = value.merge(&value.top());
                 if merged_value.is_top() {
@@ -308,7 +310,10 @@ impl<T: AbstractDomain + SizedDomain + HasTop + std::fmt::Debug> MemRegion<T> {
             let elem_range_end = compute_range_end(*index, *left, *right);
             if *index >= merged_range_end {
                 // The element does not overlap a previous element
-                if let Some((next_index, _)) = zipped.range((index + 1)..).next() {
+                if let Some((next_index, _)) = zipped
+                    .range((Bound::Excluded(*index), Bound::Unbounded))
+                    .next()
+                {
                     if *next_index >= elem_range_end {
                         // The element does not overlap a subsequent element
                         if let Some(merged) = merge_or_merge_with_top(*left, *right) {
@@ -397,9 +402,11 @@ fn compute_range_end<T: SizedDomain>(index: i64, left: Option<&T>, right: Option
         (Some(left_elem), Some(right_elem)) => {
             let left_size = u64::from(left_elem.bytesize()) as i64;
             let right_size = u64::from(right_elem.bytesize()) as i64;
-            index + std::cmp::max(left_size, right_size)
+            index.saturating_add(std::cmp::max(left_size, right_size))
         }
-        (Some(elem), None) | (None, Some(elem)) => index + u64::from(elem.bytesize()) as i64,
+        (Some(elem), None) | (None, Some(elem)) => {
+            index.saturating_add(u64::from(elem.bytesize()) as i64)
+        }
         (None, None) => panic!(),
     }
 }
